@@ -88,7 +88,7 @@ impl Reset {
             return cr;
         }
         a.step(&Op::Reset);
-        let mut b = Runner::<T>::fresh(&cfg, Sig::noise(s2)).unwrap();
+        let mut b = Runner::<T>::fresh_direct(&cfg, Sig::noise(s2)).unwrap();
         a.sig = Sig::noise(s2);
         a.pos = 0;
         let (ga, gb) = (a.drv.getters(), b.drv.getters());
@@ -183,7 +183,7 @@ impl Chan {
                     return cr;
                 }
             };
-            let mut b = Runner::<T>::fresh(&cfg, Sig::noise(s1)).unwrap();
+            let mut b = Runner::<T>::fresh_direct(&cfg, Sig::noise(s1)).unwrap();
             let any_active = mask.iter().any(|x| *x);
             for (i, (oa, ob)) in ops_a.iter().zip(ops.iter()).enumerate() {
                 let sb = b.step(ob);
@@ -262,7 +262,7 @@ impl Chan {
             c1.channels = 1;
             let mut singles: Vec<Runner<T>> = (0..cfg.channels)
                 .map(|ch| {
-                    let mut r = Runner::<T>::fresh(&c1, Sig::noise(s1)).unwrap();
+                    let mut r = Runner::<T>::fresh_direct(&c1, Sig::noise(s1)).unwrap();
                     r.ch_off = ch;
                     r
                 })
@@ -358,7 +358,7 @@ impl Malformed {
                 return cr;
             }
         };
-        let mut b = Runner::<T>::fresh(&cfg, Sig::noise(s1)).unwrap();
+        let mut b = Runner::<T>::fresh_direct(&cfg, Sig::noise(s1)).unwrap();
         let mut applied = 0;
         'outer: for i in 0..=ops.len() {
             for (at, bc) in &bads {
@@ -586,7 +586,7 @@ impl Wrap {
                 }
             }
         };
-        let mut b = Runner::<T>::fresh(&cfg, Sig::noise(s1)).unwrap();
+        let mut b = Runner::<T>::fresh_direct(&cfg, Sig::noise(s1)).unwrap();
         let (mut tot_in, mut tot_out) = (0u64, 0u64);
         for (i, op) in ops.iter().enumerate() {
             // a panic on one side only is a divergence between the wrapper and the core; on both sides it is
@@ -748,7 +748,7 @@ impl Monitor for Prec {
                 return cr;
             }
         };
-        let mut b = Runner::<f64>::fresh(&cfg, Sig::noise(s1)).unwrap();
+        let mut b = Runner::<f64>::fresh_direct(&cfg, Sig::noise(s1)).unwrap();
         a.round32 = true;
         b.round32 = true;
         let k_bound = match cfg.kind {
